@@ -275,7 +275,8 @@ class Rat:
 
 def _lead(p):
     """leading term (monomial key, coefficient) in a fixed total order"""
-    k = max(p.t, key=lambda kk: (sum(e for _, e in kk), kk))
+    # symbols may be strings or uninterpreted applications (Fn): ordered by their text, so that any mix is comparable
+    k = max(p.t, key=lambda kk: (sum(e for _, e in kk), tuple((repr(s_), e) for s_, e in kk)))
     return k, p.t[k]
 
 
